@@ -146,12 +146,12 @@ structure Pt where
   w : Rat            -- cubature weight × jac_det
   f : List Rat       -- fine basis values
   c : List Rat       -- coarse basis values (at the refined cubature point)
-deriving Inhabited
+deriving Inhabited, DecidableEq
 
 structure Child where
   fmap : List Nat
   pts : List Pt
-deriving Inhabited
+deriving Inhabited, DecidableEq
 
 structure Cell where
   cmap : List Nat
